@@ -165,6 +165,11 @@ def run(F, R, tier):
                 "%s:%s" % (hn["file"], hn["line"]), "the handler's request type is Request<Limited<Incoming>> (body reads are capped)",
                 "handler request type: %s" % ty)
 
+    # which requests get the large limit: the exemption predicate accepts exactly the two documented uploads (shared with C04.R5)
+    from rules.c04 import exemption_predicate
+    from lib import cg as _cg
+    exemption_predicate(F, R, _cg.get(F), "C15.R2")
+
     # ------------------------------------------------------------------ R3
     SC = "http::StatusCode::"
     for fid, label in ((HRS, "signing route"), (CONV, "exempt route (convert_request)")):
